@@ -95,6 +95,8 @@ def choose_cap(edges, budget):
         last = d
     if last >= top:
         return max(top, 0), tot, True
+    if last < 2 and sum(c[:3]) <= 200:          # always compare H_0 and H_1 (the 2-skeleton of K_10 has 175 simplices)
+        return 1, sum(c[:3]), len(c) <= 3
     return max(last - 1, 0), tot, False
 
 
@@ -381,7 +383,6 @@ def evaluate(ctx, res, bins, orc, cases, record=True):
         if f["ORDER"] != "ok":
             viol.append((ci, "processing-order-not-sorted", "the processing order is not a permutation of the input with non-increasing "
                          "values: %s" % p[0], vtag, "sorted permutation", p[0]))
-            continue
         if "CERTFAIL" in a or "FUEL" in a:
             viol.append((ci, "oracle-failure", "certificate or fuel failure: %s" % a[:300], vtag, None, a))
             continue
@@ -391,7 +392,7 @@ def evaluate(ctx, res, bins, orc, cases, record=True):
             viol.append((ci, "model-table-variants-disagree", "model: default table gives %s, dense table gives %s" % (ms, md), vtag, ms, md))
         for t in tags:
             want = md if t[1] == "D" else ms
-            if p[1] != want:
+            if p[1] != want and f["ORDER"] == "ok":
                 viol.append((ci, "edge-list-differs-from-model", "variant %s returns [%s], the algorithm model [%s]" % (t, p[1], want), t, want, p[1]))
         if f["SPEC"] != "ok":
             viol.append((ci, "output-edge-not-input-or-value-lowered", "variant %s returns [%s]: some edge is not an input edge, or its value is "
@@ -473,6 +474,8 @@ def check(ctx, replay=None):
     seen_kinds = {}
     for (ci, kind, what, vtag, exp, obs) in viol:
         seen_kinds.setdefault(kind, []).append((ci, what, vtag, exp, obs))
+    PROPERTY_KINDS = {"persistence-diagram-changed", "output-edge-not-input-or-value-lowered", "crash-or-exception"}
+    only_correspondence = not (set(seen_kinds) & PROPERTY_KINDS)
     for kind, lst in seen_kinds.items():
         lst.sort(key=lambda x: len(cases[x[0]][1]))
         ci, what, vtag, exp, obs = lst[0]
@@ -490,7 +493,9 @@ def check(ctx, replay=None):
             res.violation(kind, what if k == 0 else what2,
                           {"family": cs[0], "edges": [list(e) for e in cs[1]], "budget": cs[2], "variant": vtag if k == 0 else vtag2,
                            "line": gline(cs[1])},
-                          expected=exp if k == 0 else exp2, observed=obs if k == 0 else obs2)
+                          expected=exp if k == 0 else exp2, observed=obs if k == 0 else obs2,
+                          no_input=(only_correspondence and kind in ("edge-list-differs-from-model", "build-variants-disagree",
+                                                                     "processing-order-not-reproduced", "processing-order-not-sorted")))
     res.distinct = {tuple(es) for (_, es, _) in cases if len(es) >= 3}
     res.rule = ("one case = one weighted graph (edge list in input order); every case is run under the 8 build variants and every distinct "
                 "(processing order, returned list) goes through the oracle; distinct non-trivial = distinct edge lists with at least 3 edges; "
